@@ -209,8 +209,11 @@ impl DatagramWriter {
     pub fn send_bytes(&self, data: Bytes) -> io::Result<()> {
         match self.writer.lock().unwrap().deref_mut() {
             Ok(writer) => {
-                // Only consider the smallest encoding method: 1 byte
-                if (1 + data.len()) > self.max_datagram_frame_size {
+                // The limit set by the peer bounds the whole frame (RFC 9221 section 3), and the
+                // frame may be encoded with its length (see `try_load_data_into`): only admit
+                // a datagram whose largest encoding `1 + varint(len) + len` respects the limit.
+                let len_size = VarInt::try_from(data.len()).map_or(8, |len| len.encoding_size());
+                if (1 + len_size + data.len()) > self.max_datagram_frame_size {
                     tracing::error!("   Cause by: DatagramWriter::send_bytes");
                     return Err(io::Error::new(
                         io::ErrorKind::InvalidInput,
@@ -254,11 +257,10 @@ impl DatagramWriter {
     /// The value is a transport parameter set by the peer,
     /// and you cant send a datagram frame whose size exceeds this value.
     ///
-    /// Because of the encoding, the size of the data you can send is less than this value, usually 1 byte less. Although
-    /// its possiable to send a datagram frame with the size of `max_datagram_frame_size` - 1, its hardly to happen.     
-    ///
-    /// We recommend you to send unreliable data that the size is less or equal to `max_encoding_size` - `1` - `the size
-    /// of the size of the data's length in varint form`. [varint] in definded in the QUIC RFC.
+    /// Because of the encoding, the size of the data you can send is less than this value: the datagram frame may be
+    /// encoded with the data's length, so the data is accepted only if its size is less or equal to
+    /// `max_datagram_frame_size` - `1` - `the size of the data's length in varint form`.
+    /// [varint] in definded in the QUIC RFC.
     ///
     /// Size 0 means the peer does not want to receive datagram frames, but it dont means the peer will not send datagram
     /// frames to you.
